@@ -452,9 +452,13 @@ def eq_truth(root, env):
     l, sl = ev(root.left, env)
     r, sr = ev(root.right, env)
     d = abs(l - r)
-    if d == 0 or d < TINY:
+    if d == 0:
         return True, False
     mag = max(abs(l), abs(r))
+    if mag < TINY:
+        # both sides are below the smallest normal double (e.g. after dividing both sides by
+        # 1e70 five times): folded constants underflow here, nothing can be decided
+        return False, True
     if d <= TOL_OK * mag:
         return True, False
     if d > TOL_BAD * max(sl, sr, mag):
